@@ -735,6 +735,15 @@ func (rw *responseWriter) WriteHeader(statusCode int) {
 	rw.mu.Lock()
 	defer rw.mu.Unlock()
 	if rw.statusCodeSet {
+		// The final status has been chosen, but its header may still be
+		// buffered. The 100 Continue that the first read of the body of an
+		// "Expect: 100-continue" request triggers must still go out then
+		// (writeHeaderLocked does nothing once the final header is written):
+		// the client sends the body only after it, or after the final header.
+		if statusCode == http.StatusContinue {
+			rw.writeHeaderLocked(statusCode)
+			rw.st.Flush()
+		}
 		return
 	}
 	checkWriteHeaderCode(statusCode)
